@@ -9,13 +9,15 @@ EXPLANATION = ("Engine M executes one whole BatchSort::predict call (a batch hol
                "choice of fresh ids (one step from an arbitrary valid state = the inductive step of 'same grouping, boxes, epochs, lengths up to renaming of ids'). "
                "Also decided: the result object announces one result per scene, exactly one result arrives and carries its scene, every voting command is consumed, "
                "the busy monitor is back to zero afterwards (so the next submission's Condvar::wait_while ends), and neither submission nor retrieval waits forever "
-               "in the modelled schedules. Threads are modelled at command granularity: a voting thread / store worker runs when the caller blocks (result channel, "
+               "in the modelled schedules. A second family of obligations starts from the REAL constructor (BatchSort::new with the real TrackStore::new; thread bodies recorded by a "
+               "thread::spawn model and run by a generic scheduler) and sends a first batch with two scenes through two voting threads: one result per scene, records in order, "
+               "ids pairwise distinct across scenes and threads, no panic. BatchVisualSort::predict is plugged into the VisualSORT step query the same way. Threads are modelled at command granularity: a voting thread / store worker runs when the caller blocks (result channel, "
                "busy monitor, store responses); with two voting threads both service orders are explored. Counterexamples are replayed natively: the same multi-scene "
                "histories through BatchSort (all scenes of a step in one batch, 1-3 voting threads, 1-2 shards, IoU and Mahalanobis) and through Sort, compared per "
                "scene up to a consistent renaming of ids, retrieval under a watchdog.")
 ASSUMPTIONS = ["one scene per batch, <= 2 detections, <= 2 stored tracks (scene, last epoch, length, ids symbolic), 1 shard, 1-2 voting threads, previous batch none / finished; option grids as in the simple predict step (C01 / C02)",
                "threads at command granularity: voting threads and store workers run when the caller blocks; a thread polling its own empty queue parks; channels are unbounded FIFO queues",
                "candidate ids random 64-bit values assumed distinct from all ids in use; fresh Kalman filter round trip exact; kuhn_munkres by contract; HashMap iteration in insertion order"]
-OUTSIDE = ["batches with several scenes in engine M (the native replay sweeps them, a sweep is not a verdict)", "preemption inside a command, OS scheduling, more than 2 voting threads",
+OUTSIDE = ["batches with several scenes from an arbitrary state (only from a fresh tracker in engine M; the native replay sweeps them, a sweep is not a verdict)", "preemption inside a command, OS scheduling, more than 2 voting threads",
            "back-pressure of the bounded(1) result channel and therefore deadlock freedom of the real protocol when results are not retrieved; Drop / shutdown",
-           "BatchVisualSort (its voting path is the VisualSort step of C12 / props/stepvisual.py behind the same protocol)", "whole histories (inductive step only)"]
+           "BatchVisualSort beyond 1 detection x 1 stored track", "whole histories (inductive step and the first batch of a fresh tracker only)"]
